@@ -160,9 +160,15 @@ func c17(c *Ctx) {
 	if arm != nil {
 		info := arm.Info()
 		g := c.Graph(arm)
-		isPM := func(fn *types.Func, _ *ast.CallExpr) bool { return isFunc(fn, "ircserver", "(*IRCServer).ProcessMessage") }
-		isSLP := func(fn *types.Func, _ *ast.CallExpr) bool { return isFunc(fn, "ircserver", "(*IRCServer).SetLastProcessed") }
-		isMDS := func(fn *types.Func, _ *ast.CallExpr) bool { return isFunc(fn, "ircserver", "(*IRCServer).MaybeDeleteSession") }
+		isPM := func(fn *types.Func, _ *ast.CallExpr) bool {
+			return isFunc(fn, "ircserver", "(*IRCServer).ProcessMessage")
+		}
+		isSLP := func(fn *types.Func, _ *ast.CallExpr) bool {
+			return isFunc(fn, "ircserver", "(*IRCServer).SetLastProcessed")
+		}
+		isMDS := func(fn *types.Func, _ *ast.CallExpr) bool {
+			return isFunc(fn, "ircserver", "(*IRCServer).MaybeDeleteSession")
+		}
 		var msgParam types.Object = paramOfType(arm, pathRobust, "Message")
 		deps := flowx.Compute(info, arm.Node())
 		for _, call := range callsIn(arm, isPM) {
